@@ -334,6 +334,14 @@ pub fn stress_sources() -> Vec<(String, String)> {
     // expressions an optimiser would like to simplify (operators are overridable; x / x fails for 0); bodies re-entered through other objects, calls in tail position
     v.push(("algebraic-identities".into(), "let o = object begin\n  function +(b) -> begin print(\"<+~>\", b); 101 end;\n  function -(b) -> begin print(\"<-~>\", b); 102 end;\n  function *(b) -> begin print(\"<*~>\", b); 103 end;\n  function /(b) -> begin print(\"</~>\", b); 104 end;\n  function %(b) -> begin print(\"<%~>\", b); 105 end;\n  function ==(b) -> begin print(\"<==>\"); 106 end;\n  function !=(b) -> begin print(\"<!=>\"); 107 end;\n  function <(b) -> begin print(\"<lt>\"); 108 end;\n  function >(b) -> begin print(\"<gt>\"); 109 end;\n  function <=(b) -> begin print(\"<le>\"); 110 end;\n  function >=(b) -> begin print(\"<ge>\"); 111 end;\n  function &(b) -> begin print(\"<&~>\", b); 112 end;\n  function |(b) -> begin print(\"<|~>\", b); 113 end;\nend;\nprint(\"~ ~ ~ ~ ~ ~\\n\", o + 0, o - 0, o * 1, o * 0, o / 1, o % 1);\nprint(\"~ ~ ~ ~ ~ ~\\n\", o == o, o != o, o < o, o > o, o <= o, o >= o);\nprint(\"~ ~ ~ ~ ~ ~\\n\", o & true, o | false, o & false, o | true, o - 1 + 1, o * 2 / 2);\nlet x = 7; let z = 0; let t = true; let f = false; let n = null;\nprint(\"~ ~ ~ ~ ~ ~ ~ ~\\n\", x + 0, 0 + x, x - 0, 0 - x, x * 1, 1 * x, x * 0, 0 * x);\nprint(\"~ ~ ~ ~ ~ ~ ~ ~\\n\", x / 1, x % 1, x - x, x / x, x % x, z * x, z / x, z % x);\nprint(\"~ ~ ~ ~ ~ ~ ~ ~\\n\", x == x, x != x, x < x, x <= x, x > x, x >= x, z == 0, 0 == z);\nprint(\"~ ~ ~ ~ ~ ~ ~ ~\\n\", t & true, t | false, t & false, f | true, t & t, f | f, t == t, f != f);\nprint(\"~ ~ ~ ~ ~ ~\\n\", n == n, n != n, n == null, null == n, n == 0, n == false);\nprint(\"~ ~ ~ ~\\n\", x + 1 - 1, x * 2 / 2, 2147483647 + 1 - 1, (x + 2147483647) - 2147483647);\nx <- x;\nprint(\"~\\n\", x);\n".into()));
     v.push(("reentrant-methods-and-tail-calls".into(), "let a = object begin let id = 1; let other = null; function m(d) -> if d <= 0 then this.id else begin let before = this.id; let r = this.other.m(d - 1); before * 1000 + r * 10 + this.id end; end;\nlet b = object begin let id = 2; let other = null; function m(d) -> if d <= 0 then this.id else begin let before = this.id; let r = this.other.m(d - 1); before * 1000 + r * 10 + this.id end; end;\na.other <- b; b.other <- a;\nprint(\"~ ~ ~ ~\\n\", a.m(0), a.m(1), a.m(2), b.m(3));\nfunction even(n) -> if n == 0 then true else odd(n - 1);\nfunction odd(n) -> if n == 0 then false else even(n - 1);\nfunction count(n, acc) -> if n == 0 then acc else count(n - 1, acc + n);\nfunction last_local(n) -> begin let keep = n * 2; let r = if n == 0 then 0 else last_local(n - 1); keep + r end;\nprint(\"~ ~ ~ ~\\n\", even(10), odd(7), count(1000, 0), last_local(5));\nlet c = object begin let n = 0; function down(k) -> if k == 0 then this.n else begin this.n <- this.n + k; this.down(k - 1) end; end;\nprint(\"~ ~\\n\", c.down(100), c);\n".into()));
+    // calls in tail position: arguments that swap or depend on the old parameters, a local that shadows a parameter before the
+    // call, a method and a global function of one name calling each other, recursion through this and through another object,
+    // arguments with effects, a wrong argument count in tail position
+    v.push(("tail-call-shapes".into(), "function sum(a, b) -> if a <= 0 then b else sum(a - 1, b + a);\nfunction swap(a, b, n) -> if n <= 0 then a * 100 + b else swap(b, a, n - 1);\nfunction fib(a, b, n) -> if n <= 0 then a else fib(b, a + b, n - 1);\nfunction dep(a, b, n) -> if n <= 0 then a * 1000 + b else dep(a + b, a, n - 1);\nfunction shadow(left, step) -> if left <= 0 then step else begin let step = if step > left then left else step; shadow(left - step, step + 1) end;\nfunction keep(a, n) -> if n <= 0 then a else begin let old = a; let a = a + 1; keep(old + a, n - 1) end;\nfunction noisy(a, n) -> if n <= 0 then a else noisy(begin print(\"<a~>\", a); a + 1 end, begin print(\"<n~>\", n); n - 1 end);\nfunction twice(n) -> n + 1000;\nfunction thrice(n) -> o.thrice(n - 1);\nlet o = object begin\n  let visited = 0;\n  let other = null;\n  function twice(n) -> if n > 10 then n else twice(n * 2);\n  function thrice(n) -> if n <= 0 then 7 else thrice(n);\n  function walk(left, step) -> if left <= 0 then this.visited else begin this.visited <- this.visited + 1; let step = if step > left then left else step; this.walk(left - step, step + 1) end;\n  function hop(n) -> if n <= 0 then this.visited else this.other.hop(n - 1);\n  function count(n, acc) -> if n <= 0 then acc else this.count(n - 1, acc + n);\n  function flip(a, b, n) -> if n <= 0 then a * 100 + b else this.flip(b, a, n - 1);\nend;\nlet p = object begin let visited = 55; let other = o; function hop(n) -> if n <= 0 then this.visited else this.other.hop(n - 1); end;\no.other <- p;\nprint(\"~ ~ ~ ~\\n\", sum(10, 0), swap(1, 2, 3), fib(0, 1, 10), dep(1, 2, 4));\nprint(\"~ ~ ~\\n\", shadow(10, 1), keep(1, 3), noisy(0, 2));\nprint(\"~ ~ ~\\n\", o.twice(1), o.twice(20), thrice(3));\nprint(\"~ ~ ~ ~ ~\\n\", o.walk(10, 1), o.hop(3), o.hop(4), o.count(100, 0), o.flip(1, 2, 5));\nfunction bad(a, b) -> if a <= 0 then b else bad(a - 1);\nprint(\"before\\n\");\nprint(\"~\\n\", bad(2, 0));\nprint(\"not reached\\n\");\n".into()));
+    // one method body shared by all instances of a constructor, recursing through other instances
+    v.push(("linked-structures".into(), "function cons(head, tail) -> object begin\n  let head = head;\n  let tail = tail;\n  function nth(k) -> if k == 0 then this.head else this.tail.nth(k - 1);\n  function length() -> if this.tail == null then 1 else 1 + this.tail.length();\n  function sum(acc) -> if this.tail == null then acc + this.head else this.tail.sum(acc + this.head);\n  function last() -> if this.tail == null then this else this.tail.last();\n  function ==(other) -> false;\nend;\nlet list = cons(10, cons(20, cons(30, null)));\nprint(\"~ ~ ~ ~ ~ ~\\n\", list.nth(0), list.nth(1), list.nth(2), list.length(), list.sum(0), list.last().head);\nfunction node(key) -> object begin\n  let key = key; let left = null; let right = null;\n  function insert(k) -> if k < this.key then (if this.left == null then this.left <- node(k) else this.left.insert(k)) else (if this.right == null then this.right <- node(k) else this.right.insert(k));\n  function contains(k) -> if k == this.key then true else if k < this.key then (if this.left == null then false else this.left.contains(k)) else (if this.right == null then false else this.right.contains(k));\n  function total() -> this.key + (if this.left == null then 0 else this.left.total()) + (if this.right == null then 0 else this.right.total());\n  function depth() -> begin let l = if this.left == null then 0 else this.left.depth(); let r = if this.right == null then 0 else this.right.depth(); 1 + (if l > r then l else r) end;\n  function ==(other) -> false;\nend;\nlet tree = node(50);\nlet keys = array(7, 0);\nkeys[0] <- 30; keys[1] <- 70; keys[2] <- 20; keys[3] <- 40; keys[4] <- 60; keys[5] <- 80; keys[6] <- 45;\nlet i = 0;\nwhile i < 7 do begin tree.insert(keys[i]); i <- i + 1 end;\nprint(\"~ ~ ~ ~ ~\\n\", tree.contains(45), tree.contains(46), tree.total(), tree.depth(), tree.left.right.right.key);\n".into()));
+    // a field name used before a global, a local, a parameter and a function of the same name are defined
+    v.push(("fields-named-like-later-globals".into(), "function point(a, b) -> object begin let x = a; let y = b; end;\nlet x = 5;\nlet p = point(x, x + 1);\nx <- p.x + p.y;\nprint(\"~ ~\\n\", x, p);\nlet holder = object begin let later = 1; function later() -> 2; end;\nlet later = 3;\nfunction later() -> 4;\nbegin let y = 9; print(\"~ ~ ~ ~ ~ ~\\n\", y, p.y, later, later(), holder.later, holder.later()) end;\nfunction uses(y) -> y + p.y;\nprint(\"~\\n\", uses(100));\n".into()));
     // degenerate programs
     v.push(("empty-program".into(), "".into()));
     v.push(("only-comments".into(), "// nothing\n/* at all */\n".into()));
